@@ -43,6 +43,7 @@ def run(ck, fb):
     r02m(ck, fb)
     r02n(ck, fb)
     r02o(ck, fb)
+    r02p(ck, fb)
     ck.borrow('rules.c03', {'R03b': 'R02j', 'R03g': 'R02k', 'R03i': 'R02l'}, 'a truncation that leaves wrong cursors / keeps the suffix breaks the reopened log')
 
 
@@ -448,3 +449,34 @@ def r02o(ck, fb, R='R02o'):
                'in the SuccessToEnd arm the running index + 1 is compared with list.len() / used as resume index: the batch whose last record fills '
                'the file (173056 records of 130 bytes, then a one-record batch) is answered FailureBatch with resume index 2 of 1')
     ck.ok(R, 'WriteBatch:counters', b.where(), '%d running index(es)' % len(counters))
+
+
+def r02p(ck, fb, R='R02p'):
+    ck.rule(R, 'the last-term re-read on reopen is not hidden by the compaction bound: read_records clamps its range to split_off_index, so in '
+               'LogInnerManager::init the read of the last record must happen while split_off_index does not yet depend on the split_off_index '
+               'parameter (a file whose whole content is compacted - the normal state after a snapshot at its last index - otherwise reports the '
+               'file\'s pre_term as the term of its last entry after a restart)')
+    b = ck.main(LIM + 'init', R)
+    if not b:
+        return
+    rr = b.calls(re.escape(LIM + 'read_records') + '$')
+    if not rr:
+        return
+    # the split_off_index parameter: in the coroutine body it is an upvar field of _1; taint by name of the debug local
+    plocals = [l for l in range(len(b.locals)) if (b.locals[l].get('n') or '') == 'split_off_index']
+    if not ck.require(len(plocals) >= 1, R, 'init:param', b.where(), 'parameter split_off_index not found'):
+        return
+    tp = Taint(b, local_src=plocals)
+    early = []
+    for (i, j, st) in b.aggregates(r'raftlog::LogInnerManager$'):
+        rv = st['rv']
+        if 'split_off_index' in rv.get('fields', []):
+            op = rv['ops'][rv['fields'].index('split_off_index')]
+            if tp.op_tainted(op) and any(s0.bb in cfg.reach_from(b, [i]) for s0 in rr):
+                early.append(b.where(i))
+    for (o, f, bb, st) in b.field_writes():
+        if f == 'split_off_index' and any(tp.op_tainted(x) for x in rv_operands(st['rv'])) and any(s0.bb in cfg.reach_from(b, [bb]) and s0.bb != bb for s0 in rr):
+            early.append(b.where(bb))
+    ck.require(not early, R, 'init:last-record-read-before-compaction-bound', early[0] if early else b.where(),
+               'split_off_index already carries the compaction bound when the last record is re-read through read_records: for a fully compacted file '
+               'the read is empty and last_term stays pre_term (reopen of entries with terms 1,1,1,2,2 and split_off_index 5 reports term 1)')
